@@ -405,7 +405,7 @@ func appendCapture(outputMoves *[]rankedMove, from, to square, attacker, attacke
 }
 
 func probeKillerMoves(mov Move, ply int16) int16 {
-	killers := killerMoves[ply]
+	killers := killerMoves[killerSlot(ply)]
 	if mov == killers[0] {
 		return rankingBonusKiller1st
 	} else if mov == killers[1] {
